@@ -72,6 +72,14 @@ def run(repo, rep, tier):
                   'code can be built (well-formed format strings)')
     operation_parameters_are_used(
         repo, rep, 'C12.R14', lambda n: 'Class' in n or 'Qualifier' in n)
+    # hierarchies built by MOF compilation: the flavors written on a
+    # qualifier (`: Restricted`) reach the compiled class - every
+    # value-carrying grammar symbol is read by its action
+    from .c08 import _r8_symbols_consumed
+    _r8_symbols_consumed(repo, rep, 'C12.R15', exempt={
+        ('p_instanceDeclaration', 'qualifierList'):
+        'qualifiers written on an instance take no part in class '
+        'resolution (their loss is the C08 finding)'})
     from ..guards import run_format_rule
     run_format_rule(repo, rep, r5, lambda f: f.file in (
         'pywbem_mock/_resolvermixin.py', BASE) or (
@@ -165,11 +173,12 @@ def run(repo, rep, tier):
                 if isinstance(a, ast.Assign) and a.value is cs[0] and \
                         isinstance(a.targets[0], ast.Name):
                     var = a.targets[0].id
+            from ..flow import value_of as _vo3
             ok = var is not None and any(
-                isinstance(c, ast.Compare) and
-                isinstance(c.ops[0], ast.In) and
+                isinstance(c, ast.Compare) and len(c.ops) == 1 and
+                isinstance(c.ops[0], (ast.In, ast.NotIn)) and
                 norm(c.comparators[0]) == var and
-                norm(c.left).endswith('.classname')
+                norm(_vo3(f, c.left)).endswith('.classname')
                 for c in ast.walk(f.node))
         r3.ob(ok, n + ':closure', {'operation': n, 'closure_var': var})
         if not ok:
